@@ -465,6 +465,9 @@ def _shard_entry(args: Tuple[Any, ...]) -> Dict[str, Any]:
         from harness import tmpfiles
 
         del tmpfiles._DIRS[:]  # directories inherited from the parent belong to the parent
+        from harness import gateways
+
+        gateways._LOOP = None  # the parent's loop has executor threads that do not exist after fork
         rec = Recorder(pid, tier, seed, level)
         try:
             fn(rec, k, n, *extra)
